@@ -222,7 +222,7 @@ func (r *dlRoles) walk(f *ssa.Function, path upath) dlPath {
 				}
 				effects++
 			case isFieldStore(x, r.T, r.pending):
-				if bo, ok := x.Val.(*ssa.BinOp); ok {
+				if bo, ok := origin(x.Val).(*ssa.BinOp); ok {
 					if k, ok2 := constInt(bo.Y); ok2 && isFieldLoad(bo.X, r.T, r.pending) {
 						if bo.Op == token.ADD {
 							s.dPending += k
